@@ -116,6 +116,9 @@ func worker(args []string) {
 	if args[0] == "cancel" && len(args) > 1 {
 		os.Exit(cancel.Worker(args[1]))
 	}
+	if args[0] == "format-result" {
+		os.Exit(decor.FormatResultWorker())
+	}
 	if args[0] == "spinner-start" {
 		os.Exit(decor.SpinnerStartWorker(args[1:]))
 	}
